@@ -88,10 +88,19 @@ func c06Worker() int {
 		if _, err := io.ReadFull(in, hdr); err != nil {
 			return 0
 		}
-		fam := c06Families[int(hdr[0]&0x7f)%len(c06Families)]
+		fam := c06Families[int(hdr[0]&0x3f)%len(c06Families)]
 		ei := int(binary.BigEndian.Uint16(hdr[1:3]))
 		n := int(binary.BigEndian.Uint32(hdr[3:7]))
 		data := make([]byte, n)
+		if hdr[0]&0x40 != 0 {
+			// soak request: k(4) lenA(4) A B - see c06Soak
+			if _, err := io.ReadFull(in, data); err != nil {
+				return 0
+			}
+			fmt.Fprintln(out, c06WorkerSoak(fam, ei, data))
+			out.Flush()
+			continue
+		}
 		if hdr[0]&0x80 != 0 && n <= len(spareBuf) {
 			// the input as a caller with a read buffer hands it over: the
 			// first n bytes of a much larger slice (len n, cap 4 MiB)
@@ -117,6 +126,58 @@ func c06Worker() int {
 		fmt.Fprintf(out, "R %d %d %d %d\n", m1.TotalAlloc-m0.TotalAlloc, el.Nanoseconds(), panics, len(eps))
 		out.Flush()
 	}
+}
+
+// c06WorkerSoak decodes A and B alternately k times through every entry point
+// of the family, measuring EVERY call; it answers at the first call over the
+// bound (or over the wall limit), else after the last iteration.
+// reply: S <alloc> <wall_ns> <iteration> <entry index> <which: 0=A 1=B> <max alloc of any call> <calls>
+func c06WorkerSoak(fam string, ei int, req []byte) string {
+	if len(req) < 8 {
+		return "S 0 0 0 0 0 0 0"
+	}
+	// a verifier confined to one core: per-processor caches (sync.Pool) then
+	// see the whole history instead of a random half of it
+	runtime.GOMAXPROCS(1)
+	k := int(binary.BigEndian.Uint32(req[0:4]))
+	la := int(binary.BigEndian.Uint32(req[4:8]))
+	if la > len(req)-8 {
+		la = len(req) - 8
+	}
+	docs := [2][]byte{append([]byte{}, req[8:8+la]...), append([]byte{}, req[8+la:]...)}
+	eps := entriesOf(fam)
+	base := 0
+	if ei != 0xffff {
+		base = ei % len(eps)
+		eps = eps[base : base+1]
+	}
+	var m0, m1 runtime.MemStats
+	var maxAlloc uint64
+	calls := 0
+	for it := 0; it < k; it++ {
+		for w, d := range docs {
+			if w == 1 && len(d) == 0 {
+				continue
+			}
+			runtime.ReadMemStats(&m0)
+			for i, e := range eps {
+				t0 := time.Now()
+				_, _, _ = runEntryNoPanic(e, d, false)
+				el := time.Since(t0)
+				runtime.ReadMemStats(&m1)
+				a := m1.TotalAlloc - m0.TotalAlloc
+				m0 = m1
+				calls++
+				if a > maxAlloc {
+					maxAlloc = a
+				}
+				if a > c06Bound(len(d)) || el > c06MaxWall {
+					return fmt.Sprintf("S %d %d %d %d %d %d %d", a, el.Nanoseconds(), it, base+i, w, maxAlloc, calls)
+				}
+			}
+		}
+	}
+	return fmt.Sprintf("S 0 0 %d 0 0 %d %d", k, maxAlloc, calls)
 }
 
 // ---- parent side ----
@@ -1404,3 +1465,264 @@ func FuzzC06_Alloc(f *testing.F) {
 }
 
 var _ = strconv.Itoa
+
+// ---- histories: what a call allocates must not depend on what was decoded before ----
+
+type c06SoakIn struct {
+	Family string `json:"family"`
+	Entry  int    `json:"entry"` // index into the family's entry points; -1 = all of them, in turn, every iteration
+	EName  string `json:"entry_point,omitempty"`
+	K      int    `json:"iterations"`
+	A      hx     `json:"input_a_hex"`
+	B      hx     `json:"input_b_hex"`
+	Desc   string `json:"desc,omitempty"`
+}
+
+type c06SoakRes struct {
+	Alloc    uint64
+	Wall     time.Duration
+	Iter     int
+	Entry    int
+	Which    int
+	MaxAlloc uint64
+	Calls    int
+	Died     bool
+	TimedOut bool
+	Stderr   string
+}
+
+// c06Soak runs one soak in a FRESH worker (so that the history is exactly the
+// one described by the request).
+func c06Soak(in c06SoakIn, limit time.Duration) c06SoakRes {
+	p, err := c06Start()
+	if err != nil {
+		return c06SoakRes{Died: true, Stderr: "cannot start worker: " + err.Error()}
+	}
+	defer p.stop()
+	body := make([]byte, 8, 8+len(in.A)+len(in.B))
+	binary.BigEndian.PutUint32(body[0:4], uint32(in.K))
+	binary.BigEndian.PutUint32(body[4:8], uint32(len(in.A)))
+	body = append(append(body, in.A...), in.B...)
+	hdr := make([]byte, 7)
+	hdr[0] = byte(famIndex(in.Family)) | 0x40
+	if in.Entry < 0 {
+		binary.BigEndian.PutUint16(hdr[1:3], 0xffff)
+	} else {
+		binary.BigEndian.PutUint16(hdr[1:3], uint16(in.Entry))
+	}
+	binary.BigEndian.PutUint32(hdr[3:7], uint32(len(body)))
+	type rd struct {
+		line string
+		err  error
+	}
+	ch := make(chan rd, 1)
+	go func() {
+		_, _ = p.stdin.Write(hdr)
+		_, _ = p.stdin.Write(body)
+		l, err := p.out.ReadString('\n')
+		ch <- rd{l, err}
+	}()
+	var r rd
+	select {
+	case r = <-ch:
+	case <-time.After(limit):
+		_ = p.cmd.Process.Kill()
+		<-ch
+		_ = p.cmd.Wait()
+		return c06SoakRes{Died: true, TimedOut: true}
+	}
+	if r.err != nil {
+		_ = p.cmd.Wait()
+		return c06SoakRes{Died: true, Stderr: truncate(p.errb.String(), 1500)}
+	}
+	var res c06SoakRes
+	var ns int64
+	if _, err := fmt.Sscanf(r.line, "S %d %d %d %d %d %d %d", &res.Alloc, &ns, &res.Iter, &res.Entry, &res.Which, &res.MaxAlloc, &res.Calls); err != nil {
+		return c06SoakRes{Died: true, Stderr: "unparsable worker reply: " + r.line}
+	}
+	res.Wall = time.Duration(ns)
+	return res
+}
+
+// c06SoakVerdict: "" or the violation text; infra != "" = inconclusive.
+func c06SoakVerdict(in c06SoakIn) (violation, infra string, res c06SoakRes) {
+	res = c06Soak(in, 4*time.Minute)
+	if res.Died {
+		es := res.Stderr
+		if strings.Contains(es, "out of memory") || strings.Contains(es, "cannot allocate memory") || strings.Contains(es, "stack overflow") || strings.Contains(es, "goroutine stack exceeds") {
+			return fmt.Sprintf("decoding the same %d-byte / %d-byte inputs again and again kills the process with an unrecoverable out-of-memory / stack-overflow error (address-space limit %d MiB):\n%s", len(in.A), len(in.B), c06Rlimit>>20, firstLines(es, 6)), "", res
+		}
+		if res.TimedOut {
+			return "", "soak did not finish within its time limit (no single call was over its bound before that)", res
+		}
+		return "", "soak worker died: " + firstLines(es, 8), res
+	}
+	if res.Alloc == 0 && res.Wall == 0 {
+		return "", "", res
+	}
+	eps := entriesOf(in.Family)
+	doc := in.A
+	if res.Which == 1 {
+		doc = in.B
+	}
+	name := "?"
+	if res.Entry < len(eps) {
+		name = eps[res.Entry].Name
+	}
+	if res.Alloc > c06Bound(len(doc)) {
+		return fmt.Sprintf("call number %d of a process that decodes the same two inputs alternately (iteration %d, %s) allocated %d bytes for a %d-byte input; bound is 1 MiB + 1 KiB/byte = %d - what a call allocates grows with what was decoded BEFORE, not with its input", res.Calls, res.Iter, name, res.Alloc, len(doc), c06Bound(len(doc))), "", res
+	}
+	// a slow call: only a verdict if it is slow again in a second fresh history
+	res2 := c06Soak(in, 4*time.Minute)
+	if !res2.Died && res2.Wall > c06MaxWall {
+		return fmt.Sprintf("call number %d of a process that decodes the same two inputs alternately (iteration %d, %s) took %v for a %d-byte input (> %v, again in a second fresh process)", res.Calls, res.Iter, name, res.Wall, len(doc), c06MaxWall), "", res
+	}
+	return "", "", res
+}
+
+var c06SoakKind = registerKind("c06soak", func(in c06SoakIn) string {
+	v, infra, _ := c06SoakVerdict(in)
+	if infra != "" {
+		return "VERIF-INFRA: " + infra
+	}
+	return v
+})
+
+// soakDocs: (A, B) pairs per family. A is a legitimate document with many
+// entries the profile does not know (vendor claims, newer firmware), or one
+// on an error path; B a small ordinary one.
+func soakSizes() []int {
+	if thorough() {
+		return []int{230, 3000}
+	}
+	return []int{230}
+}
+
+func soakDocs() []c06SoakIn {
+	var r []c06SoakIn
+	unknownPairs := func(n int, first uint64) [][2]*icbor.Node {
+		var ps [][2]*icbor.Node
+		for i := 0; i < n; i++ {
+			ps = append(ps, icbor.P(icbor.U(first+uint64(i)), icbor.U(0)))
+		}
+		return ps
+	}
+	for _, p := range []Prof{P1, P2} {
+		small := baseValid(p, 1).WireBytes()
+		for _, n := range soakSizes() {
+			first := uint64(24)
+			if n > 230 {
+				first = 100000
+			}
+			tok := icbor.Encode(icbor.Map(append(baseValid(p, 1).WirePairs(), unknownPairs(n, first)...)...))
+			d := fmt.Sprintf("%s token + %d unknown integer labels / small %s token", p, n, p)
+			r = append(r, c06SoakIn{Family: "cbor", A: tok, B: small, Desc: d}, c06SoakIn{Family: "enc-cbor", A: tok, B: small, Desc: d},
+				c06SoakIn{Family: "cose", A: icbor.Encode(c05Envelope(tok)), B: icbor.Encode(c05Envelope(small)), Desc: "signed: " + d})
+			// unknown TEXT labels
+			var tps [][2]*icbor.Node
+			for i := 0; i < n; i++ {
+				tps = append(tps, icbor.P(icbor.Tstr(fmt.Sprintf("vendor-%d", i)), icbor.U(0)))
+			}
+			tok = icbor.Encode(icbor.Map(append(baseValid(p, 1).WirePairs(), tps...)...))
+			d = fmt.Sprintf("%s token + %d unknown text labels / small %s token", p, n, p)
+			r = append(r, c06SoakIn{Family: "cbor", A: tok, B: small, Desc: d}, c06SoakIn{Family: "enc-cbor", A: tok, B: small, Desc: d})
+		}
+		// the error path: the same many-entry token with one claim of a wrong type
+		m := baseValid(p, 1)
+		ps := append(m.WirePairs(), unknownPairs(230, 24)...)
+		ps = append(ps, icbor.P(icbor.U(99999), icbor.Tstr("x")))
+		for i := range ps {
+			if k, _ := ps[i][0].Int(); k == 2394 || k == -75001 {
+				ps[i][1] = icbor.Tstr("not a number")
+			}
+		}
+		bad := icbor.Encode(icbor.Map(ps...))
+		r = append(r, c06SoakIn{Family: "cbor", A: bad, B: small, Desc: fmt.Sprintf("%s token + 230 unknown labels, client id of a wrong type (every decode fails) / small token", p)},
+			c06SoakIn{Family: "enc-cbor", A: bad, B: small, Desc: fmt.Sprintf("%s token + 230 unknown labels, client id of a wrong type / small token", p)})
+		// JSON
+		base := modelJN(baseValid(p, 1))
+		smallJ := []byte(base.String())
+		for _, n := range soakSizes() {
+			o := base.clone()
+			for i := 0; i < n; i++ {
+				o.keys, o.vals = append(o.keys, fmt.Sprintf("vendor-%d", i)), append(o.vals, jStr("v"))
+			}
+			d := fmt.Sprintf("%s JSON claims + %d unknown members / small %s document", p, n, p)
+			r = append(r, c06SoakIn{Family: "json", A: []byte(o.String()), B: smallJ, Desc: d}, c06SoakIn{Family: "enc-json", A: []byte(o.String()), B: smallJ, Desc: d})
+		}
+		o := base.clone()
+		for i := 0; i < 230; i++ {
+			o.keys, o.vals = append(o.keys, fmt.Sprintf("vendor-%d", i)), append(o.vals, jStr("v"))
+		}
+		o.keys, o.vals = append(o.keys, "psa-client-id"), append(o.vals, jStr("not a number"))
+		r = append(r, c06SoakIn{Family: "json", A: []byte(o.String()), B: smallJ, Desc: fmt.Sprintf("%s JSON claims + 230 unknown members, a second client id of a wrong type / small document", p)})
+	}
+	// unregistered profile names, a different one would need a different input:
+	// the same one again and again must not accumulate either
+	m := baseValid(P2, 1)
+	tok := icbor.Encode(icbor.Map(append(bodyPairs(m), icbor.P(icbor.U(265), icbor.Tstr("http://example.com/verif/not-registered/"+strings.Repeat("x", 900))))...))
+	r = append(r, c06SoakIn{Family: "cbor", A: tok, B: baseValid(P2, 1).WireBytes(), Desc: "token of an unregistered 940-character profile / small P2 token"})
+	for i := range r {
+		r[i].Entry = -1
+	}
+	return r
+}
+
+func TestC06_Soak(t *testing.T) {
+	st := NewStats("C06", "TestC06_Soak", "histories, measured in a FRESH single-core (GOMAXPROCS=1) worker process per history: two inputs A and B (A = a valid token / signed token / JSON claims-set of either profile carrying 230 (thorough: also 3000) entries the profile does not know under integer or text labels, or the same with one claim of a wrong type so that every decode of it fails, or a token of an unregistered profile with a 940-character name; B = a small ordinary document) are decoded alternately k times (quick 1600, thorough 12000; a quarter of that for the 3000-entry inputs) by ONE entry point of the family - one history per entry point (claims decoders, per-type unmarshalers, extension types that go through the populate helpers, populate helpers directly) - and, k/4 times, through ALL entry points of the family in turn (a mixed workload, where calls that fail sit between calls that succeed); EVERY single call is measured (TotalAlloc delta, wall time). Violation: any call of the history allocates more than 1 MiB + 1 KiB per byte of ITS input or takes > 5 s (confirmed in a second fresh history) or the process dies with an out-of-memory error - i.e. what a call allocates depends on what the process decoded before. Non-trivial = every history (k >= 2, many unknown entries); distinct = family + both inputs")
+	st.Require = []string{"family=cbor", "family=cose", "family=json", "family=enc-cbor", "family=enc-json"}
+	defer st.Flush(t)
+	k := 1600
+	if thorough() {
+		k = 12000
+	}
+	shard, shards := shardInfo()
+	idx := 0
+	for _, doc := range soakDocs() {
+		if len(doc.A) > c06MaxLen {
+			st.Class("skipped-too-long")
+			continue
+		}
+		eps := entriesOf(doc.Family)
+		// one history through all entry points in turn (a mixed workload), then
+		// one history per entry point (a process that does one thing)
+		for e := -1; e < len(eps); e++ {
+			idx++
+			if idx%shards != shard {
+				continue
+			}
+			in := doc
+			in.Entry = e
+			in.K = k
+			class := "soak-one-entry-point"
+			if e < 0 {
+				in.K = k / 4
+				class = "soak-all-entry-points"
+			} else {
+				in.EName = eps[e].Name
+			}
+			if len(in.A) > 8192 {
+				in.K /= 4
+			}
+			v, infra, res := c06SoakVerdict(in)
+			if infra != "" {
+				fmt.Printf("VERIF-INFRA: C06 %s (%s)\n", infra, in.Desc)
+				t.Fatalf("VERIF-INFRA: %s", infra)
+			}
+			st.Case(fmt.Sprintf("%s|soak|%d|%s|%s", in.Family, e, in.A, in.B), class, "family="+in.Family)
+			st.mu.Lock()
+			st.Evals += int64(res.Calls - 1)
+			if a, _ := st.Extra["max_alloc_single_call_bytes"].(uint64); res.MaxAlloc > a {
+				st.Extra["max_alloc_single_call_bytes"] = res.MaxAlloc
+				st.Extra["max_alloc_single_call_history"] = fmt.Sprintf("%s %s: %s (%d / %d bytes, %d calls)", in.Family, in.EName, in.Desc, len(in.A), len(in.B), res.Calls)
+			}
+			st.mu.Unlock()
+			if st.WantSample() {
+				st.Sample(map[string]any{"family": in.Family, "entry_point": in.EName, "desc": in.Desc, "iterations": in.K, "calls_measured": res.Calls, "max_alloc_of_one_call": res.MaxAlloc, "len_a": len(in.A), "len_b": len(in.B)})
+			}
+			if v != "" {
+				reportCase(t, "C06", "c06soak", in, v+"\n  "+in.EName+"; "+in.Desc)
+			}
+		}
+	}
+}
